@@ -9,7 +9,8 @@ import Revm.Model.SelfdestructNotify
 script (the oracle recorded by the harness' probes below the inspector's wrappers) with the stacks left
 by the previous transactions of the block, and prints the callback word the model predicts, the verdicts
 of the property checkers on it, and for every executed SELFDESTRUCT what `Model.SelfdestructNotify.wrapped`
-predicts (result, gas, balances; its callback goes into the word). The Spec column is the same line with
+predicts (result, gas, balances, the journal entries `Model.Journal.selfdestruct` appends; its callback goes
+into the word). The Spec column is the same line with
 the word of the one-stack reference machine. -/
 namespace Driver.InspectorHooks
 open Revm Revm.Hex Revm.Model.InspectorHooks Revm.Spec.InspectorHooks
@@ -75,6 +76,23 @@ def resName : IRes → String
   | .fatalExternalError => "fatal"
   | _ => "other"
 
+/-- journal entries as the harness prints them (`entry_text`) -/
+def entryText : Entry → String
+  | .accountWarmed a => s!"W{toHex a}"
+  | .accountTouched a => s!"T{toHex a}"
+  | .accountDestroyed a t wd had => s!"D{toHex a}.{toHex t}.{boolStr wd}.{toHex had}"
+  | .balanceTransfer f t v => s!"B{toHex f}.{toHex t}.{toHex v}"
+  | _ => "?"
+
+/-- the entries appended to the innermost level since it had `prevLen` entries, oldest first -/
+def newEntriesText (prevLen : Nat) (s : JState) : String :=
+  match s.journal with
+  | [] => "-"
+  | l :: _ =>
+    match (l.take (l.length - prevLen)).reverse with
+    | [] => "-"
+    | es => "+".intercalate (es.map entryText)
+
 def parseNote (s : String) : Option (Option (Nat × Nat × Nat)) :=
   if s = "-" then some none else
   match s.splitOn "/" with
@@ -118,7 +136,7 @@ def runSd (spec : Nat) (tok : String) : Option SdOut :=
           | none => "-"
       let expect := if it'.result = .selfDestruct then
           some (a, t.getD 0, accA.info.balance - abal') else none
-      some { note := note, text := s!"{resName it'.result}/{toHex it'.gas}/{toHex abal'}/{tbal}", expect := expect }
+      some { note := note, text := s!"{resName it'.result}/{toHex it'.gas}/{toHex abal'}/{tbal}/{newEntriesText prevLen s'}", expect := expect }
   | _ => none
 
 /-! ### script -/
